@@ -38,7 +38,7 @@ ASSUMPTIONS = ['stop --now --now and stop --kill not exercised here',
                'forever)']
 MIN = {'kind:cycle_point': 25, 'kind:task': 20, 'kind:clean': 25,
        'kind:now': 25, 'restarts': 60}
-NCASES = {'quick': 140, 'thorough': 1600}
+NCASES = {'quick': 500, 'thorough': 6000}
 MONS = ['c26', 'rsnap']
 
 
@@ -119,8 +119,8 @@ def run_case(ctx, i, rng):
             allsub = got0 | set(submitted_ids(r1))
             wantall = {f'{p}/{n}' for n, p in model['run']}
             if (r1.get('stop_reason') or '').endswith('AUTOMATIC') and \
-                    not wantall <= allsub and not known_c01(case, wantall -
-                                                            allsub):
+                    not wantall <= allsub and not known_c01(
+                        case, wantall - allsub, results):
                 ctx.violation('C43:restart-after-stop-point-incomplete',
                               f'after restarting past stop point {P} '
                               f'{sorted(wantall - allsub)[:4]} never ran',
@@ -223,7 +223,7 @@ def run_case(ctx, i, rng):
         want = {f'{p}/{n}' for n, p in model['run']}
         got = {k.rsplit('/', 1)[0] for k in jobs}
         if (r1.get('stop_reason') or '').endswith('AUTOMATIC') and \
-                want != got and not known_c01(case, want - got):
+                want != got and not known_c01(case, want - got, results):
             ctx.violation('C43:different-work-after-stop-restart',
                           f'after stop --{kind} and restart: missing '
                           f'{sorted(want - got)[:4]}, extra '
@@ -232,13 +232,25 @@ def run_case(ctx, i, rng):
     ctx.sample(detail)
 
 
-def known_c01(case, missing):
-    """Missing instances explained by the C01 known finding only."""
+def known_c01(case, missing, results=()):
+    """Missing instances explained by the C01 known findings only:
+    'parentless-after-parented-point', or (given the phase results) being
+    downstream of an output message that arrived after its task had left the
+    pool ('output-message-after-final-message')."""
     from vlib.e1.c01 import classify_missing
+    from vlib.e1.c20 import child_of_late
     if not missing:
         return True
-    kinds = set()
+    late = []
+    for r in results or ():
+        late += ((r.get('monitors') or {}).get('ledger') or {}).get(
+            'messages_after_task_left_pool') or []
     for tid in missing:
         p, n = tid.split('/', 1)
-        kinds.add(classify_missing(case, n, int(p)))
-    return kinds <= {'parentless-after-parented-point'}
+        kind = classify_missing(case, n, int(p))
+        if kind == 'parentless-after-parented-point':
+            continue
+        if late and child_of_late(case['gt'], f'{tid}/01', late):
+            continue
+        return False
+    return True
